@@ -207,6 +207,16 @@ def check_ds(ctx, rng):
                 if ds_rel.digest != RD.ds_digest(owner, rdata, 2):
                     ctx.violation(f"ds-digest-differs:relative-owner:{how}", f"owner {rel} origin {org}", case)
                     break
+            # the record-set helpers take the same (owner, origin) spellings
+            try:
+                cds_rel = dns.dnssec.dnskey_rdataset_to_cds_rdataset(rel.to_text(), rds, "SHA256", origin=org)
+                if {d.digest for d in cds_rel} != {RD.ds_digest(owner, rdata, 2)}:
+                    ctx.violation("ds-digest-differs:relative-owner:text:cds-rdataset-helper", f"owner {rel} origin {org}", case)
+                ds_rel_set = dns.dnssec.make_ds_rdataset((rel, rds), {"SHA256"}, origin=org)
+                if {d.digest for d in ds_rel_set} != {RD.ds_digest(owner, rdata, 2)}:
+                    ctx.violation("ds-digest-differs:relative-owner:Name:ds-rdataset-helper", f"owner {rel} origin {org}", case)
+            except Exception as e:
+                ctx.violation("ds-with-relative-owner-and-origin-raised:rdataset-helper:" + core.exc_sig(e), f"owner {rel} origin {org}: {e!r}", case)
         # the published-key twin of the set (CDNSKEY): same fields, its own type, for the set and for every record
         if dk.rdtype == dns.rdatatype.DNSKEY:
             ctx.count("mon.cdnskey_rdataset_type")
